@@ -584,7 +584,7 @@ def run_check(prop, tier, cfg):
             # among those (the concrete-playback run repeats the harness with the full trace)
             members.sort(key=lambda v: (0 if native_replayable(v["harness"]) else 1, dur_ms.get(v["harness"], 0)))
             rep_v = members[0]
-            budget = int(max(900, 4 * dur_ms.get(rep_v["harness"], 0) / 1000 + 300))
+            budget = int(min(2400, max(900, 4 * dur_ms.get(rep_v["harness"], 0) / 1000 + 300)))
             if not native_replayable(rep_v["harness"]):
                 rep, path, note = replay(ov, prop, rep_v, extra, native=False)
             else:
